@@ -4,6 +4,7 @@ package c08
 
 import (
 	"bytes"
+	"context"
 	"crypto/x509"
 	"encoding/json"
 	"fmt"
@@ -51,11 +52,15 @@ type Case struct {
 	ExpiryAfter int64 // nanoseconds after the signing time; 0 = absent
 	Attrs       []AttrDesc
 	Agent       string
+	// Era: "" = certificates valid from 2001 to 2096; "past" = valid 2002-2010,
+	// "future" = valid 2080-2094 - the wall clock of the run lies outside, the
+	// signing time inside
+	Era string
 }
 
 func (c Case) desc() string {
-	return fmt.Sprintf("%s key=%s chain=%d remote=%v scheme=%s payload=%dB cty=%q t=%d zone=%d expiry=+%d attrs=%d agent=%q",
-		mtName(c.MT), c.Kind, c.ChainLen, c.Remote, c.Scheme, len(c.Payload), c.ContentType, c.TimeNanos, c.ZoneMinutes, c.ExpiryAfter, len(c.Attrs), c.Agent)
+	return fmt.Sprintf("%s key=%s chain=%d remote=%v scheme=%s payload=%dB cty=%q t=%d zone=%d expiry=+%d attrs=%d agent=%q era=%q",
+		mtName(c.MT), c.Kind, c.ChainLen, c.Remote, c.Scheme, len(c.Payload), c.ContentType, c.TimeNanos, c.ZoneMinutes, c.ExpiryAfter, len(c.Attrs), c.Agent, c.Era)
 }
 
 func mtName(mt string) string {
@@ -70,14 +75,34 @@ var (
 	chains = map[string]*pki.Chain{}
 )
 
-func chainFor(kind string, n int) *pki.Chain {
-	k := fmt.Sprintf("%s/%d", kind, n)
+func chainFor(kind string, n int, era string) *pki.Chain {
+	k := fmt.Sprintf("%s/%d/%s", kind, n, era)
 	chMu.Lock()
 	defer chMu.Unlock()
 	if c, ok := chains[k]; ok {
 		return c
 	}
-	c := pki.SimpleChain(kind, 0, n, "c08")
+	var c *pki.Chain
+	if era == "" {
+		c = pki.SimpleChain(kind, 0, n, "c08")
+	} else {
+		nb, na := time.Date(2002, 1, 1, 0, 0, 0, 0, time.UTC), time.Date(2010, 1, 1, 0, 0, 0, 0, time.UTC)
+		if era == "future" {
+			nb, na = time.Date(2080, 1, 1, 0, 0, 0, 0, time.UTC), time.Date(2094, 1, 1, 0, 0, 0, 0, time.UTC)
+		}
+		specs := []*pki.Cert{pki.LeafSpec(pki.K(kind, 0), "c08"+era+"-leaf")}
+		for i := 1; i < n; i++ {
+			name := fmt.Sprintf("c08%s-ca%d", era, i)
+			if i == n-1 {
+				name = "c08" + era + "-root"
+			}
+			specs = append(specs, pki.CASpec(pki.K("p256", i), name))
+		}
+		for _, sp := range specs {
+			sp.NotBefore, sp.NotAfter = nb, na
+		}
+		c = pki.MustBuild(specs...)
+	}
 	chains[k] = c
 	return c
 }
@@ -290,6 +315,15 @@ func genCase(rng *rand.Rand) Case {
 		a.Value = json.RawMessage(genAttrValue(rng, c.MT == sims.COSE, 0))
 		c.Attrs = append(c.Attrs, a)
 	}
+	switch rng.IntN(6) {
+	case 0:
+		// certificates that expired long ago, signed while they were valid
+		c.Era = "past"
+		c.TimeNanos = (int64(1_050_000_000)+rng.Int64N(200_000_000))*1e9 + c.TimeNanos%1e9 // 2003 .. 2009
+	case 1:
+		c.Era = "future"
+		c.TimeNanos = (int64(3_480_000_000)+rng.Int64N(400_000_000))*1e9 + c.TimeNanos%1e9 // 2080-04 .. 2092
+	}
 	if rng.IntN(2) == 0 {
 		c.Agent = []string{"notation/1.0", "agent with spaces", "ü/2", "a", "agent\twith a tab", "agent read from a file\n", "no\u00a0break", "bell\a"}[rng.IntN(8)]
 	}
@@ -377,7 +411,7 @@ func (c *Case) times() (st, exp time.Time) {
 }
 
 func execute(r *core.Run, c *Case) {
-	ch := chainFor(c.Kind, c.ChainLen)
+	ch := chainFor(c.Kind, c.ChainLen, c.Era)
 	var signer signature.Signer
 	var remote *sims.RemoteSigner
 	if c.Remote {
@@ -429,6 +463,12 @@ func execute(r *core.Run, c *Case) {
 				r.Count("signed-on-a-used-object", 1)
 			}
 		})
+	}
+	if (len(c.Payload)+len(c.Attrs))%4 == 1 {
+		// the request travels through WithContext: the copy must ask for the same
+		type ctxKey struct{}
+		req = req.WithContext(context.WithValue(context.Background(), ctxKey{}, "c08"))
+		r.Count("request-via-WithContext", 1)
 	}
 	var raw []byte
 	if p := core.Guard(func() { raw, err = env.Sign(req) }); p != nil {
